@@ -108,6 +108,7 @@ type RPCPlan struct {
 	// call options
 	OptHeader, OptTrailer, OptPeer, OptChannel bool
 	Creds                                      *SimCreds
+	Creds2                                     *SimCreds // a second credentials option on the same call (only with Creds)
 
 	CallerSend  []Op // sender goroutine (streaming shapes with client streaming) / before receive for others
 	CallerRecv  []Op // receiver script
@@ -131,6 +132,7 @@ type RPCPlan struct {
 	Role              string // "", "interest", "bystander", "disturber", "fresh"
 	pausedHandler     bool
 	pausedReader      bool   // this RPC\'s consumer is parked behind a gate for part of the run
+	pausedSide        string // which reader is parked: "caller", "handler", "handler-duplex"
 	cancelWhenStalled string // "", "caller-paused", "handler-paused": the caller's context is cancelled once the run has stalled on this stream's full window
 	timeoutClass      string
 	timeoutRepeated   string
@@ -189,6 +191,19 @@ func (c *SimCreds) GetRequestMetadata(ctx context.Context, uri ...string) (map[s
 }
 
 type credCallKey struct{}
+
+// appendCredsExp adds what the credentials options of p attach, in option order.
+func appendCredsExp(exp metadata.MD, p *RPCPlan) {
+	for _, cr := range []*SimCreds{p.Creds, p.Creds2} {
+		if cr == nil || p.Creds == nil {
+			continue
+		}
+		for k, v := range cr.MD {
+			exp.Append(k, v)
+		}
+		exp.Append("cred-call", "call-"+strconv.Itoa(p.ID))
+	}
+}
 
 func (c *SimCreds) RequireTransportSecurity() bool { return c.Secure }
 
@@ -586,12 +601,35 @@ func (h *hstream) exec(actor string, ops []Op) (bool, error) {
 			if op.St == nil || op.St.Code == 0 {
 				return true, nil
 			}
+			if e := plainError(op.St); e != nil {
+				return true, e
+			}
 			return true, status.FromProto(op.St).Err()
 		default:
 			panic(fmt.Sprintf("handler script: bad op %d", op.Kind))
 		}
 	}
 	return false, nil
+}
+
+// plainError: handlers also fail with errors that are not statuses (what a
+// handler gets from its own I/O, or RecvMsg's io.EOF passed on); the caller
+// must then see Unknown with the error's text. A scripted Unknown status
+// without details stands for such an error (derived from the script, not
+// drawn, so that recorded choice sequences keep their meaning).
+func plainError(st *spb.Status) error {
+	if st.Code != int32(codes.Unknown) || len(st.Details) != 0 {
+		return nil
+	}
+	switch st.Message {
+	case "":
+		return io.EOF
+	case "x":
+		return io.ErrUnexpectedEOF
+	case "boom":
+		return fmt.Errorf("boom: %w", io.EOF)
+	}
+	return errors.New(st.Message)
 }
 
 // ---- gates --------------------------------------------------------------------
@@ -733,6 +771,10 @@ func (w *World) RunCaller(parent context.Context, cc grpc.ClientConnInterface, p
 	if p.Creds != nil {
 		ctx = context.WithValue(ctx, credCallKey{}, "call-"+strconv.Itoa(p.ID))
 		opts = append(opts, grpc.PerRPCCredentials(p.Creds))
+		if p.Creds2 != nil {
+			// an interceptor's credentials and the application's own
+			opts = append(opts, grpc.PerRPCCredentials(p.Creds2))
+		}
 	}
 
 	if p.CancelAfter.Actor == "start" {
